@@ -49,11 +49,12 @@ type write struct {
 }
 
 type writes struct {
-	mu    sync.Mutex
-	next  int
-	byMD5 map[string]*write
-	byID  map[int]*write
-	byCRC map[string]*write
+	mu       sync.Mutex
+	next     int
+	byMD5    map[string]*write
+	byID     map[int]*write
+	byCRC    map[string]*write
+	emptyRep *write
 }
 
 func newWrites() *writes {
@@ -86,6 +87,26 @@ func (ws *writes) mk(big bool) *write {
 	ws.byID[id] = w
 	ws.byCRC[w.crc] = w
 	ws.mu.Unlock()
+	return w
+}
+
+// mkEmpty creates a write with an empty body: all of them share body, ETag and checksum (twins of the first one)
+func (ws *writes) mkEmpty() *write {
+	ws.mu.Lock()
+	rep := ws.emptyRep
+	ws.mu.Unlock()
+	if rep != nil {
+		return ws.mkTwin(rep)
+	}
+	ws.mu.Lock()
+	ws.next++
+	id := ws.next
+	sum := md5.Sum(nil)
+	w := &write{id: id, rep: id, body: []byte{}, md5: hex.EncodeToString(sum[:]), ctype: fmt.Sprintf("application/x-w-%d", id), crc: s3c.Checksum("crc32", nil)}
+	ws.byMD5[w.md5], ws.byID[id], ws.byCRC[w.crc] = w, w, w
+	ws.emptyRep = w
+	ws.mu.Unlock()
+	w.optional()
 	return w
 }
 
@@ -323,6 +344,8 @@ var pKinds = []pKind{
 	{"PUT-new", false}, {"PUT-overwrite", false}, {"PUT-overwrite-versioned", true}, {"COPY-onto", false},
 	{"MPU-complete-onto", false}, {"DELETE", false}, {"DELETE-marker-versioned", true}, {"DELETE-version-promote", true},
 	{"GET", false}, {"HEAD", false},
+	// the object that is read is EMPTY (no byte of it is ever sent; what is then overwritten under the read is the rest)
+	{"GET-empty", false}, {"HEAD-empty", false},
 }
 var oKinds = []string{"GET", "HEAD", "PUT", "DELETE", "LIST", "GETV"}
 
@@ -448,14 +471,17 @@ func (l *laneA) prepare(p pKind, key string) (*prepared, error) {
 		// deleting the newest version re-exposes the previous one: a "put" of write a
 		pr.in = opIn{Kind: "delver", W: a.id, W2: w2.id, Name: p.name}
 		pr.run = func(c *s3c.Client) *s3c.Resp { return c.DeleteObjectV(b, key, vid) }
-	case "GET", "HEAD":
+	case "GET", "HEAD", "GET-empty", "HEAD-empty":
 		big := l.ws.mk(true)
+		if strings.HasSuffix(p.name, "-empty") {
+			big = l.ws.mkEmpty()
+		}
 		if err := put(big); err != nil {
 			return nil, err
 		}
 		pr.seedW = big.id
 		pr.isRead = true
-		pr.head = p.name == "HEAD"
+		pr.head = strings.HasPrefix(p.name, "HEAD")
 		pr.in = opIn{Kind: "read", Name: p.name}
 		if pr.head {
 			pr.run = func(c *s3c.Client) *s3c.Resp { return c.HeadObject(b, key, ckMode...) }
@@ -648,8 +674,20 @@ func (l *laneA) oneCase(id string, p pKind, j int, wantName string, o string, pl
 	if (oResp.Err != nil && !bodyCut(oResp)) || (pr1.r.Err != nil && !bodyCut(pr1.r)) {
 		if _, cr := l.env.Dead(); cr != nil {
 			viol("gateway-died", cr.Message+" "+cr.TopFrame)
+		} else if pr.isRead && pr1.r.Err != nil && oResp.Err == nil {
+			// a read of a key that exists throughout, answered with a broken response (the gateway is alive)
+			viol("read-connection-dropped", "P ("+p.name+") got no complete response: "+pr1.r.Err.Error())
 		} else {
-			c.Inconclusive("transport error in schedule")
+			et := ""
+			for _, r := range []*s3c.Resp{pr1.r, oResp} {
+				if r.Err != nil {
+					et = r.Err.Error()
+					if len(et) > 60 {
+						et = et[:60]
+					}
+				}
+			}
+			c.Inconclusive("transport error in schedule: " + et)
 		}
 		return
 	}
@@ -791,7 +829,7 @@ func runLaneA(c *ev.Ctx, cfg laneCfg) {
 		}
 		for j, name := range hits {
 			for _, o := range oKinds {
-				if (p.name == "GET" || p.name == "HEAD") && (o == "GET" || o == "HEAD" || o == "LIST") {
+				if (strings.HasPrefix(p.name, "GET") || strings.HasPrefix(p.name, "HEAD")) && (o == "GET" || o == "HEAD" || o == "LIST") {
 					continue // two reads cannot disagree
 				}
 				for place := 0; place < 2; place++ {
